@@ -6,6 +6,7 @@
 -/
 import ShVerif.Proofs.L4PrintGen
 import ShVerif.Proofs.L4Single
+import ShVerif.Proofs.L4ParseWF
 namespace ShVerif.Props.C02
 open ShVerif ShVerif.L4
 
@@ -205,6 +206,14 @@ theorem reprint_singleLine (o : Opts) (l : Lang) (f : File) (b : Bytes) (hsl : o
   obtain ⟨f', h1, _⟩ := roundtrip_gen o l f b hwf hmono hne hp
   rw [reprint_of_parse h1]
   exact idempotent_singleLine o l f f' b hsl hwf hmono hne hp h1
+
+/-- **Idempotence under SingleLine, from source text**: if `src` parses to a non-empty `f`, `f`
+    prints as `b` under an option set with SingleLine, then formatting `b` again gives `b`.  No
+    hypothesis on the tree (`parse_wf_posMono`). -/
+theorem idempotent_singleLine_src (o : Opts) (l : Lang) (src : Bytes) (f : File) (b : Bytes) (hsl : o.singleLine = true)
+    (hsrc : parse l src = .ok f) (hne : f.stmts ≠ .nil) (hp : printFile o f = .ok b) : reprint o l b = .ok b := by
+  obtain ⟨hwf, hmono⟩ := parse_wf_posMono l src f hsrc
+  exact reprint_singleLine o l f b hsl hwf hmono hne hp
 
 /-! ## Stated, not proved
 
